@@ -212,7 +212,7 @@ func fromNode1(n *ast.Node) *T {
 		return t
 	case ast.TypeCallExpr:
 		e := n.CallExpr()
-		t := &T{K: KCall, S: e.Name, Kids: fromList("call argument", e.Param)}
+		t := &T{K: KCall, S: e.Name, Kids: fromList("call argument", e.Param), Orig: e}
 		t.pos("NamePos", e.NamePos)
 		t.pos("LParen", e.LParen)
 		t.pos("RParen", e.RParen)
